@@ -126,6 +126,27 @@ INFO = {
     "C18-d": (["C18"], "missed at first", "the stock DispatchingVisitor never visited before a subclass did; it now does"),
     "C19-d": (["C19"], "caught as written", None),
     "C20-d": (["C20"], "missed at first", "C20 built every schema with enum internal value = name; code-built schemas now carry internal values and members can be renamed keeping theirs (exposed genuine defect 781298d)"),
+    # ---- round 5
+    "C01-e": (["C01"], "caught as written", None),
+    "C02-e": (["C02"], "caught as written", None),
+    "C03-e": (["C03"], "missed at first", "quoted strings were never blank-only; added"),
+    "C04-e": (["C04"], "caught as written", None),
+    "C05-e": (["C05"], "caught as written", None),
+    "C06-e": (["C06"], "caught as written (1 hit)", "spread-web recipe `entry fragment defined first, leading into a cycle` makes it robust"),
+    "C07-e": (["C07"], "caught as written", None),
+    "C08-e": (["C09"], "caught as written (by C09; same change as C09-b; C08's worlds have no side effects so data is equal)", None),
+    "C09-e": (["C09", "C08"], "missed at first", "self-submitting resolvers existed on the sync schema only; now also among the plain resolvers of the asyncio schema"),
+    "C10-e": (["C10"], "missed at first", "resolver error extensions were always dicts; half are now read-only mapping views"),
+    "C11-e": (["C11"], "caught as written", None),
+    "C12-e": (["C12"], "missed at first", "descriptions were short; lines filling the printer's line budget exactly added, calls whose options would re-wrap are skipped as out of domain"),
+    "C13-e": (["C13"], "missed at first", "only one named root-type case; combinations of a missing query type with non-object mutation / subscription types added"),
+    "C14-e": (["C14"], "caught as written", None),
+    "C15-e": (["C15"], "missed at first", "all types were direct instances of the library classes; code-built scalars / enums are now instances of subclasses (exposed genuine defect 197b255)"),
+    "C16-e": (["C16"], "caught as written", None),
+    "C17-e": (["C17"], "caught as written", None),
+    "C18-e": (["C18"], "caught as written", None),
+    "C19-e": (["C19"], "caught as written", None),
+    "C20-e": (["C20"], "missed at first", "fields of implementing objects were never edited on their own; edit `refine-implementation-field` added"),
 }
 RAN_C = ("tools/confirm_seed.sh (scratch worktree of /repo HEAD, /repo itself untouched because a background thorough run was using it): "
          "demo.py on the clean tree (exit 0), patch applied, repo test-suite (1895 passed), demo.py with the change (exit 1), "
@@ -133,7 +154,7 @@ RAN_C = ("tools/confirm_seed.sh (scratch worktree of /repo HEAD, /repo itself un
 for sid, (caught, first, strengthening) in sorted(INFO.items()):
     p = os.path.join(HERE, "seeded", sid, "meta.json")
     m = json.load(open(p))
-    m["what_i_ran"] = RAN_C if sid.endswith(("-c", "-d")) else RAN
+    m["what_i_ran"] = RAN_C if sid.endswith(("-c", "-d", "-e")) else RAN
     m["caught_by_quick_checks"] = caught
     m["first_round"] = first
     if strengthening:
